@@ -69,6 +69,16 @@ def _repair_undone(case):
     return case.get('phase') == 'repair-then-upstream-write'
 
 
+@known_predicate('C09-stored-partial-retry-returns-stored')
+def _stored_partial_retry(case):
+    # INERT (no case of this check has this variant; not in known_findings.json): an .xlsx with PARTIALLY
+    # stored results — the failing cell A2 '=BOOM(A1)' has no cached value, its dependant A3 '=SUM(A1:A2)'
+    # has one: the first evaluate(A3) raises while the graph is built, the retry returns the stored value,
+    # and set_value(A1, …) no longer resets A3 (the range node A1:A2 stays None). Model witness:
+    # coq/Refuted/C09_stored_results.v. Same trigger as the C01 finding C01-stored-partial.
+    return case.get('variant') == 'stored-partial-failing-build'
+
+
 def descendants(wb, a):
     return wb.descendants(a)
 
@@ -334,7 +344,7 @@ def correspondence(ctx, ExcelCompiler, plugin):
         "not), set_value on a built input, set_value of a constant on a built failing cell (repair), switch a "
         "plugin cell between raising and returning, or arm it to raise from its k-th call; distinct = distinct "
         "(workbook, faults, history)")
-    nwb = ctx.n(500, 6000)
+    nwb = ctx.n(1200, 12000)
     batch = []
     stats = ctx.extra.setdefault('correspondence', dict(histories=0, operations=0, failed_evaluations=0,
                                                         histories_with_a_failure=0))
